@@ -100,6 +100,18 @@ def Opt(t):
     return OneOf(NoneT, t)
 
 
+class Choice(D):
+    """One of the given concrete values (fork)."""
+
+    def __init__(self, *values):
+        self.values = values
+
+    def make(self, it, name, idx=()):
+        if idx:
+            raise OutOfSubset("Choice inside a symbolic sequence")
+        return it.path.choose([(v, True) for v in self.values], f"choice:{name}")
+
+
 class TupleOf(D):
     def __init__(self, *elts):
         self.elts = elts
@@ -131,6 +143,8 @@ class Seq(D):
     def make(self, it, name, idx=()):
         n = _leaf(f"{name}.len", idx, z3.IntSort())
         it.path.assume(n >= (1 if self.nonempty else 0))
+        if not idx:
+            it.path.seq_lens.append(n)
         elt = self.elt
 
         def maker(i, _name=name, _idx=tuple(idx)):
@@ -242,7 +256,7 @@ class Contract:
     def __init__(self, target, args=None, requires=(), ensures=None, raises=(), modifies=(), returns=None, pure=False,
                  inline=False, invariants=None, trusted=False, prop=None, setup=None, ghost=None, varargs=None,
                  raises_ensures=None, note="", abstract_only=False, result_name=None, unroll=None, kind="function",
-                 concretize=None, native_setup=None, max_paths=None, bounded_note=None, effects=None, yield_effect=None):
+                 concretize=None, native_setup=None, max_paths=None, bounded_note=None, effects=None, yield_effect=None, call_ensures=None):
         self.target = target
         self.args = args or {}
         self.requires = list(requires)
@@ -266,6 +280,7 @@ class Contract:
         self.native_setup = native_setup
         self.max_paths = max_paths
         self.bounded_note = bounded_note
+        self.call_ensures = call_ensures  # clauses assumed at call sites instead of `ensures` (an abstraction of them; listed as assumed)
         self.effects = dict(effects or {})  # ghost updates performed by an abstract call: name -> clause
         self.yield_effect = yield_effect  # ghost updates at every `yield` of the function under verification: {name: clause over `event`}
 
